@@ -109,6 +109,58 @@ Definition wellformed (c : case) : bool :=
   | _ => false
   end.
 
+
+(* ---- the property's own relation: decode (encode v) is v up to the format's stated precision
+   (less than one unit of the last printed digit: 10 ms, 1 s for lap dates, 10^-dp for floats) ---- *)
+Definition close_f (dp : nat) (x y : f64) : bool :=
+  let tol := f_of_ratio 1001 (1000 * 10 ^ Z.of_nat dp) in
+  (fnorm x =? fnorm y) || feq x y || (fle (fsub x y) tol && fle (fsub y x) tol).
+Definition close_z (u a b : Z) : bool := Z.abs (a - b) <? u.
+Definition exact_leaf (l l' : leaf) : bool :=
+  match quant_leaf l with Ok q => zeq (tok_leaf q) (tok_leaf l') | _ => false end.
+Definition close_leaf (l l' : leaf) : bool :=
+  match l, l' with
+  | LvF dp x, LvF dp' x' => Nat.eqb dp dp' && close_f dp x x'
+  | LvDur d, LvDur d' => close_z 10000000 d d'
+  | LvSync d, LvSync d' => close_z 10000000 d d'
+  | LvLapDate t, LvLapDate t' => close_z 1000000000 t t'
+  | LvFixDate t, LvFixDate t' => close_z 10000000 t t'
+  | LvCoord a b, LvCoord a' b' => close_f 8 a a' && close_f 8 b b'
+  | LvAltCoord a b c, LvAltCoord a' b' c' => close_f 8 a a' && close_f 8 b b' && close_f 1 c c'
+  | LvRel a o, LvRel a' o' => close_f 1 a a' && close_z 10000000 o o'
+  | LvInter l1, LvInter l2 =>
+      Nat.eqb (length l1) (length l2) &&
+      forallb (fun '((d, x), (d', x')) => close_z 10000000 d d' && close_f 1 x x') (combine l1 l2)
+  | LvGear n r, LvGear n' r' => (n =? n') && close_f 6 r r'
+  | _, _ => exact_leaf l l'
+  end.
+Fixpoint close_val (v v' : val) : bool :=
+  match v, v' with
+  | VLeaf l, VLeaf l' => close_leaf l l'
+  | VStruct fs, VStruct fs' =>
+      (fix go (a b : list (string * mode * field)) : bool :=
+         match a, b with
+         | [], [] => true
+         | (n, m, f) :: ra, (n', m', f') :: rb =>
+             String.eqb n n' &&
+             (match f, f' with
+              | FOne x, FOne x' => close_val x x'
+              | FPtr None, FPtr None => true
+              | FPtr (Some x), FPtr (Some x') => close_val x x'
+              | FMany l, FMany l' =>
+                  (fix gol (p q : list val) : bool :=
+                     match p, q with
+                     | [], [] => true
+                     | x :: p', y :: q' => close_val x y && gol p' q'
+                     | _, _ => false
+                     end) l l'
+              | _, _ => false
+              end) && go ra rb
+         | _, _ => false
+         end) fs fs'
+  | _, _ => false
+  end.
+
 Definition check_c01 (c : case) : verdict :=
   match c_class c with
   | 2%nat | 3%nat => VV
@@ -122,6 +174,9 @@ Definition check_c01 (c : case) : verdict :=
                      end in
     let others := c_gz_ok c && c_cp_ok c && schema_ok c in
     if dec_match && others && c_reenc_equal c then (if same then VA else VS)
+    (* not the model's bytes or value, but the relation the property states: same database up to
+       the format's precision and an identical second encoding *)
+    else if c_dec_ok c && close_val (c_val c) (c_decoded c) && others && c_reenc_equal c then VS
     else if dec_match && others && vanishing (c_val c) && same then VK
     else VV
   end.
